@@ -280,6 +280,28 @@ def run(prog, tier, extra=None):
                                 "%s inserts a peer record into index_to_peers without a fresh index or a lookup deciding that the index is free: an authenticated "
                                 "record can be replaced while its key entry stays" % name, b.loc(bb)))
 
+    # R5b: the converse. A key entry is removed only as part of removing the peer record it belongs to (the key is that record's own):
+    # the address_to_peers removal is dominated by a removal from index_to_peers in the same body. A removal "by key" anywhere else
+    # can hit the entry of another connection that authenticated under the same key.
+    for b in prog.all_bodies():
+        if "::tests::" in b.path or "/test/" in b.file or b.unit.crate not in ("saito_core", "saito_rust", "saito_spammer", "saito_wasm"):
+            continue
+
+        def table_level2(x):
+            return x[0] == "call" and x[2].rsplit("::", 1)[0] in ("std::collections::HashMap", "ahash::AHashMap")
+        a_rem = [x[1] for x in fa.sites(b, "PeerCollection", "address_to_peers") if x[3] == "remove" and table_level2(x)]
+        if not a_rem:
+            continue
+        i_rem = [x[1] for x in fa.sites(b, "PeerCollection", "index_to_peers") if x[3] == "remove" and table_level2(x)]
+        name = b.path.replace("::{closure#0}", "").split("::", 3)[-1]
+        for bb in a_rem:
+            res.instance(R5)
+            if any(i != bb and b.dominates(i, bb) for i in i_rem):
+                res.sample({"rule": R5, "site": b.loc(bb), "kind": "key entry removed", "verdict": "together with its peer record"})
+            else:
+                res.add(Finding(R5, "C17.index-paired|%s|key-only" % b.path, "%s removes an address_to_peers entry by key without removing the peer record it belongs to: a rejected or "
+                                "failed handshake on one connection can delete the entry of another connection authenticated under the same key" % name, b.loc(bb)))
+
     res.explanation = (
         "Decides the shape-level part of authentication: who may mark a peer connected / record its key / index it by key, that in the one handler that does, both "
         "writes are dominated by the true edge of verify(self.challenge_for_peer, response.signature, response.public_key) and the key recorded is the verified one, "
